@@ -78,6 +78,88 @@ def same_recipe(ctx, rep, rule: str) -> None:
     rep.ob(rule, "merge-threshold-is-split-size", ok, mp.loc(), "merge_small_dims and multi_dim_split use the same max_preconditioner_dim of the param group")
 
 
+def _zip_partner(func, name: str, x):
+    """`for x, name in zip(P, L)` where L (a local or a self attribute assigned once in func) is `tuple(E(v) for v in P ...)`:
+    the element paired with x is E(x)."""
+    if not isinstance(x, ast.Name):
+        return None
+    for loop in [n for n in A.walk_no_nested(func) if isinstance(n, (ast.For, ast.comprehension))]:
+        t, it = loop.target, loop.iter
+        if not (isinstance(t, ast.Tuple) and isinstance(it, ast.Call) and _norm(it.func) == "zip" and len(it.args) == len(t.elts)):
+            continue
+        names = [e.id if isinstance(e, ast.Name) else None for e in t.elts]
+        if name not in names or x.id not in names:
+            continue
+        src, lst = it.args[names.index(x.id)], it.args[names.index(name)]
+        key = _norm(lst)
+        defs = [
+            n.value
+            for n in A.walk_no_nested(func)
+            if isinstance(n, (ast.Assign, ast.AnnAssign)) and n.value is not None and any(_norm(tg) == key for tg in (n.targets if isinstance(n, ast.Assign) else [n.target]))
+        ]
+        if len(defs) != 1:
+            return None
+        e = defs[0]
+        if isinstance(e, ast.Call) and _norm(e.func) in ("tuple", "list") and len(e.args) == 1:
+            e = e.args[0]
+        if not (isinstance(e, (ast.GeneratorExp, ast.ListComp)) and len(e.generators) == 1):
+            return None
+        g = e.generators[0]
+        if not (isinstance(g.target, ast.Name) and _norm(g.iter) == _norm(src)):
+            return None
+        elt = e.elt
+        if isinstance(elt, ast.Call) and _norm(elt.func) in ("tuple", "list") and len(elt.args) == 1:
+            elt = elt.args[0]
+        return A.substitute(elt, {g.target.id: x}) if hasattr(A, "substitute") else _subst(elt, g.target.id, x)
+    return None
+
+
+def _subst(e, name, repl):
+    import copy
+
+    class T(ast.NodeTransformer):
+        def visit_Name(self, n):
+            return copy.deepcopy(repl) if n.id == name else n
+
+    return T().visit(copy.deepcopy(e))
+
+
+def merged_dims_of_the_viewed_tensor(ctx, rep, rule: str) -> None:
+    """In every implementation of the parameter blocking, the dims a (sub-)tensor is viewed with before it is split are
+    computed from THAT tensor's own size: merge_small_dims(x.size(), max_preconditioner_dim) under use_merge_dims, x.size()
+    otherwise — not looked up in a table keyed by something coarser, not taken from another tensor."""
+    repo = ctx.repo
+    sp = spaces_engine(ctx)
+    seen = set()
+    n = 0
+    for c in sp.dist_classes:
+        fi = repo.lookup_method(c, "_merge_and_block_parameters")
+        if fi is None or fi.qual in seen:
+            continue
+        seen.add(fi.qual)
+        m = fi.module
+        for call in [k for k in A.calls(fi.node, nested=True) if A.callee_name(repo, m, k).endswith("shampoo_utils.multi_dim_split")]:
+            v = call.args[0] if call.args else A.keyword(call, "tensor")
+            ok = False
+            detail = "first argument is not `<tensor>.view(<dims>)`"
+            if isinstance(v, ast.Call) and isinstance(v.func, ast.Attribute) and v.func.attr == "view" and len(v.args) == 1:
+                x = _norm(v.func.value)
+                d = v.args[0]
+                if isinstance(d, ast.Name):
+                    defs = A.assignments_to(fi.node, d.id)
+                    d = defs[0] if len(defs) == 1 else _zip_partner(fi.node, d.id, v.func.value) or d
+                txt = " ".join(_norm(d).split())
+                want = {
+                    f"merge_small_dims({x}.size(), self._param_group[MAX_PRECONDITIONER_DIM]) if self._param_group[USE_MERGE_DIMS] else {x}.size()",
+                    f"merge_small_dims(tensor_shape={x}.size(), threshold=self._param_group[MAX_PRECONDITIONER_DIM]) if self._param_group[USE_MERGE_DIMS] else {x}.size()",
+                }
+                ok = txt in want
+                detail = f"`{x}` is viewed with `{txt[:120]}`"
+            n += 1
+            rep.ob(rule, f"merged-dims-of-the-viewed-tensor:{short(fi.qual)}", ok, fi.loc(call), detail + "; documented: merge_small_dims(<that tensor>.size(), max_preconditioner_dim) if use_merge_dims else <that tensor>.size()", sample=True)
+    rep.floor(rule, "multi_dim_split call sites in _merge_and_block_parameters implementations", n, 3)
+
+
 def split_structure(ctx, rep, rule: str) -> None:
     repo = ctx.repo
     pts = ctx.engine("pts")
@@ -166,6 +248,7 @@ def run(ctx, rep) -> None:
     rep.rule("C05.4", "multi_dim_split splits every dimension (single fold over range(dim()), torch.split only, no early exit); compress_list is an order-preserving selection")
     rep.attempt("blocks_are_views", blocks_are_views, ctx, rep, "C05.1")
     rep.attempt("same_recipe", same_recipe, ctx, rep, "C05.2")
+    rep.attempt("merged_dims_of_the_viewed_tensor", merged_dims_of_the_viewed_tensor, ctx, rep, "C05.2")
     rep.attempt("who_may_write", who_may_write, ctx, rep, "C05.3", only_kinds=set(), include_params=True)
     rep.attempt("split_structure", split_structure, ctx, rep, "C05.4")
     from .common import utility_semantics
